@@ -10,7 +10,7 @@ import itertools
 import sys
 
 from mc import runner, wfkit
-from mc.explore import Explorer, Outcome
+from mc.explore import Explorer, run_iterated, Outcome
 from mc.loop import execute
 from mc.stepdrv import Stream, deliver_all
 
@@ -295,8 +295,7 @@ def main(argv=None):
     bound = 1 if args.tier == "quick" else 2
     cb = {i: c["bound"] for i, c in enumerate(cases) if "bound" in c}
     with Explorer(f"checks.{PROP}", cases, workers=args.workers, seed=runner.seed()) as exp:
-        stats, completed, levels = exp.run(bound, time_cap=args.time_cap or (240 if args.tier == "quick" else 1500),
-                                           case_bounds=cb)
+        stats, completed, levels = run_iterated(exp, bound, args.time_cap or (240 if args.tier == "quick" else 1500), cb, bound)
     runner.e1_report(rep, sys.modules[__name__], cases, stats, completed, levels, bound,
                      samples=[cases[0], cases[len(cases) // 2], cases[-1]])
     rep.coverage["rule"] = (
